@@ -50,8 +50,35 @@ let load_oracles (path : string) : unit =
     close_in ic
   end
 
-let po (k : n list) : req list option =
-  match Hashtbl.find_opt parse_tbl (string_of_str k) with Some r -> r | None -> None
+(* labels.Parse on a map key: the model's own lexer and parser (Lbl.v); the table filled from the real library by the
+   annotate pass is kept for py/xcheck.py only *)
+let po (k : n list) : req list option = sel_parse k
+
+let selop_of_string = function
+  | "In" -> Some OpIn | "NotIn" -> Some OpNotIn | "Exists" -> Some OpExists | "DoesNotExist" -> Some OpDoesNotExist
+  | "Gt" -> Some OpGt | "Lt" -> Some OpLt | _ -> None
+
+
+(* selector spec -> the model's nodesel (own parser of the case-file mini language) *)
+let nodesel_of_spec (s : string) : term list option =
+  if s = "-" then None else if s = "0" then Some [] else
+  Some (List.map (fun t ->
+      let reqs = List.filter (fun r -> r <> "") (String.split_on_char ';' t) in
+      let mk r =
+        let isf = String.length r > 2 && String.sub r 0 2 = "F." in
+        let r = if isf then String.sub r 2 (String.length r - 2) else r in
+        let (k, op, vs) = match String.split_on_char ':' r with
+          | [k; op; vs] -> (k, op, vs) | [k; op] -> (k, op, "") | [k] -> (k, "", "") | k :: op :: rest -> (k, op, String.concat ":" rest) | [] -> ("", "", "") in
+        let vals = if vs = "" then [] else List.map (fun v -> if v = "EMPTY" then "" else v) (String.split_on_char '+' vs) in
+        (* an operator outside the six is kept distinguishable by tagging the key (update comparison only) *)
+        let (k, o) = match selop_of_string op with Some o -> (k, o) | None -> (k ^ "\000op=" ^ op, OpIn) in
+        (isf, { rkey = str_of_string k; rop = o; rvals = List.map str_of_string vals }) in
+      let all = List.map mk reqs in
+      { t_exprs = List.map snd (List.filter (fun (f, _) -> not f) all); t_fields = List.map snd (List.filter (fun (f, _) -> f) all) })
+      (String.split_on_char '|' s))
+
+let reqs_of_spec (spec : string) : req list =
+  match nodesel_of_spec spec with Some ts -> flatten_sel ts | None -> default_reqs
 let lab (c : cidr) : n list =
   match Hashtbl.find_opt labels_tbl (canon_cidr c) with Some s -> str_of_string s | None -> str_of_string (canon_cidr c)
 
@@ -94,7 +121,7 @@ let ccobj_of_fields (f : string array) : ccobj =
   (* cc+ name v4 v6 hb sel fins gen rest *)
   { o_name = str_of_string f.(1); o_v4 = field_of_tok f.(2); o_v6 = field_of_tok f.(3);
     o_hb = z_of_int (int_of_string f.(4));
-    o_selkey = (match Hashtbl.find_opt selkey_tbl f.(5) with Some (Some k) -> Some (str_of_string k) | _ -> None);
+    o_selkey = selector_key (reqs_of_spec f.(5));
     o_fins = fins_of_tok f.(6); o_deleting = false; o_gen = n_of_int (int_of_string f.(7)); o_rv = N0;
     o_rest = n_of_int (int_of_string f.(8)) }
 
